@@ -210,11 +210,11 @@ def _t5(sq, sg, r):
     if sq == 0: eq = Bun("d")
     elif sq == 1: eq = Anon((("p", BRef("d", ("n",))), ("n", BRef("d", ("p",)))))
     elif sq == 2: eq = Sig("v")
-    elif sq == 3: eq = Anon((("p", Sig("v")), ("n", Idx(Sig("two"), 1))))
+    elif sq == 3: eq = Anon((("n", Idx(Sig("two"), 1)), ("p", Sig("v"))))   # (members written in the other order than the bundle declares them)
     else: eq = Bun("dp")
     if sg == 0: eg = Sig("v")
     elif sg == 1: eg = Bun("d")
-    else: eg = Anon((("p", Idx(Sig("two"), 0)), ("n", Idx(Sig("two"), 1))))
+    else: eg = Anon((("n", Idx(Sig("two"), 1)), ("p", Idx(Sig("two"), 0))))
     return Mod("Top", ports=[("v", 1), ("two", 2)], buns=[("d", DIFF, False), ("dp", DIFF, True)],
                insts=[Inst("pr", cellm, {"q": eq, "g": eg}, kind="pair"),
                       Inst("p0", R(), {"p": BRef("d", ("p",)), "n": Sig("v")})])
